@@ -47,4 +47,44 @@ PROPS = {
                 "estimate_max_liquidity_from_token_amounts; hist: increase/decrease inside histories; non-trivial = success with a non-zero amount",
         "trusted": ["handler-level token_max/token_min comparisons are not yet tied by the translator (they are exercised only through the model's own check)"],
     },
+    "C01": {
+        "lean_modules": ["WP.Props.C01"],
+        "lean_support": [],
+        "families": [("hist", 10000, 500000)],
+        "history": True,
+        "rule": "hist: random histories (40-100 ops after each `H init`) on a real Whirlpool (fixed / dynamic / mixed tick arrays; Anchor or Pinocchio liquidity path per op; fee accumulators started anywhere in u128 incl. just below wrap-around); the whole state digest is compared with the Lean model after every op and the implementation-side oracles (hist_oracle.rs) run after every op; non-trivial = a successful op; distinct by hash of (op line, clock)",
+        "trusted": ["C01 in Lean is PARTIAL: the four mechanisms are theorems, the composite solvency invariant over histories is the stated obligation `Solvent`; it is checked on the implementation at every prefix by the drain oracle (every position fully withdrawn + fees + protocol fees collected, rotating orders) and the trader ledger"],
+    },
+    "C03": {
+        "lean_modules": ["WP.Props.C03"],
+        "lean_support": ["WP.Props.C06"],
+        "families": [("hist", 10000, 500000)],
+        "history": True,
+        "rule": "hist: random histories (40-100 ops after each `H init`) on a real Whirlpool (fixed / dynamic / mixed tick arrays; Anchor or Pinocchio liquidity path per op; fee accumulators started anywhere in u128 incl. just below wrap-around); the whole state digest is compared with the Lean model after every op and the implementation-side oracles (hist_oracle.rs) run after every op; non-trivial = a successful op; distinct by hash of (op line, clock)",
+        "trusted": ["price-monotonicity / final price between limit and start is the stated obligation `PriceBounded` (checked by the swap oracle on the implementation); the handler threshold comparison is modelled (swapThreshold), single and two-hop handlers are not executed here"],
+    },
+    "C06": {
+        "lean_modules": ["WP.Props.C06"],
+        "lean_support": ["WP.Props.C02"],
+        "families": [("hist", 10000, 500000), ("step", 20000, 1000000)],
+        "history": True,
+        "rule": "hist: random histories (40-100 ops after each `H init`) on a real Whirlpool (fixed / dynamic / mixed tick arrays; Anchor or Pinocchio liquidity path per op; fee accumulators started anywhere in u128 incl. just below wrap-around); the whole state digest is compared with the Lean model after every op and the implementation-side oracles (hist_oracle.rs) run after every op; non-trivial = a successful op; distinct by hash of (op line, clock)",
+        "trusted": ["per-step trace of the real swap loop comes from the `verif` hook in swap_manager.rs; the emitted Traded event is not decoded here"],
+    },
+    "C07": {
+        "lean_modules": ["WP.Props.C07"],
+        "lean_support": [],
+        "families": [("hist", 10000, 500000)],
+        "history": True,
+        "rule": "hist: random histories (40-100 ops after each `H init`) on a real Whirlpool (fixed / dynamic / mixed tick arrays; Anchor or Pinocchio liquidity path per op; fee accumulators started anywhere in u128 incl. just below wrap-around); the whole state digest is compared with the Lean model after every op and the implementation-side oracles (hist_oracle.rs) run after every op; non-trivial = a successful op; distinct by hash of (op line, clock)",
+        "trusted": ["the composition of the per-step lemmas along a history is checked by the shadow-ledger oracle (exact pro-rata shares from the step trace) and the model correspondence, not proved"],
+    },
+    "C11": {
+        "lean_modules": ["WP.Props.C11"],
+        "lean_support": ["WP.Props.C07"],
+        "families": [("hist", 10000, 500000)],
+        "history": True,
+        "rule": "hist: random histories (40-100 ops after each `H init`) on a real Whirlpool (fixed / dynamic / mixed tick arrays; Anchor or Pinocchio liquidity path per op; fee accumulators started anywhere in u128 incl. just below wrap-around); the whole state digest is compared with the Lean model after every op and the implementation-side oracles (hist_oracle.rs) run after every op; non-trivial = a successful op; distinct by hash of (op line, clock)",
+        "trusted": ["pro-rata/never-inflated along histories is checked by the reward shadow ledger of the history harness; reward-vault balances are harness bookkeeping (no token program is executed)"],
+    },
 }
